@@ -38,7 +38,25 @@ pub fn out_char() -> BoxedStrategy<u8> {
 
 pub fn line_s(min: usize, max: usize) -> BoxedStrategy<Vec<u8>> {
     // printable ASCII and a few two-byte characters; no CR/LF inside a line
-    proptest::collection::vec(prop_oneof![8 => (0x20u8..0x7F).prop_map(|b| vec![b]), 1 => Just("é".as_bytes().to_vec()), 1 => Just("ß".as_bytes().to_vec())], min..=max).prop_map(|v| v.concat()).boxed()
+    // one line in four begins and/or ends with blanks (they belong to the line)
+    (proptest::collection::vec(prop_oneof![8 => (0x20u8..0x7F).prop_map(|b| vec![b]), 1 => Just("é".as_bytes().to_vec()), 1 => Just("ß".as_bytes().to_vec())], min..=max), 0u8..12)
+        .prop_map(move |(v, pad)| {
+            let mut l = v.concat();
+            if !l.is_empty() && l.len() + 3 <= max.max(3) {
+                match pad {
+                    0 => l.insert(0, b' '),
+                    1 => l.push(b' '),
+                    2 => {
+                        l.insert(0, b' ');
+                        l.insert(0, b' ');
+                        l.push(b' ');
+                    }
+                    _ => {}
+                }
+            }
+            l
+        })
+        .boxed()
 }
 
 fn bufin_s() -> BoxedStrategy<Call> {
